@@ -24,7 +24,8 @@ from vlib.proto import hexs, unhex
 
 HARNESS = "api_life"
 # findings this module knows how to recognise (entries in findings.d/life.json)
-FINDINGS = ["F19", "F21", "F111", "F112", "F113", "F114", "F115", "F116", "F117", "F118", "F119", "F150", "F151", "F152", "F153", "F154", "F155", "F156", "F157", "F158"]
+FINDINGS = ["F19", "F21", "F111", "F112", "F113", "F114", "F115", "F116", "F117", "F118", "F119", "F150", "F151", "F152", "F153", "F154", "F155", "F156", "F157", "F158",
+            "F440", "F441", "F442"]
 # a leak report is symbolized by an external process per frame batch: keep it short
 ENV = {"LSAN_OPTIONS": "exitcode=96:max_leaks=2"}
 NSLOT = 6
@@ -1055,7 +1056,15 @@ class HistGen:
         if self.stream != "subval":
             popts |= P_ONLY
         vopts = 0 if popts & P_ONLY == P_ONLY else V_PRESENT
-        self.emit("parse:subtree", O("pinp", s, inst_path(par) or "@%d" % rng.randrange(20), fmt, popts, vopts, d.encode("utf-8", "surrogateescape")))
+        extra = []
+        if self.stream == "subval":
+            # the repaired lyd_parse() validates the children of the parent whatever the options: also full validation (F115) and
+            # no output pointer (F440)
+            if vopts and rng.random() < 0.4:
+                vopts = 0
+            if rng.random() < 0.3:
+                extra = [1]
+        self.emit("parse:subtree", O("pinp", s, inst_path(par) or "@%d" % rng.randrange(20), fmt, popts, vopts, d.encode("utf-8", "surrogateescape"), *extra))
 
     def g_roundtrip(self):
         rng = self.rng
@@ -1490,7 +1499,10 @@ class HistGen:
     def g_misc(self):
         rng = self.rng
         k = rng.randrange(4)
-        if k == 0:
+        if self.stream == "lrlink" and rng.random() < 0.5:
+            # all the link records are released at once while the linked trees live on (second half of F114)
+            self.emit("ctx:unset_leafref_linking", "culr")
+        elif k == 0:
             self.emit("err_clean", "ec")
         elif k == 1:
             self.emit("dict:insert_zc", O("zc", rng.choice(("a", "description", "x" * 50, "", "lfa", "žž")), rng.randrange(1, 5)))
@@ -1708,6 +1720,14 @@ def seed_f114():
     return 1, 0x400 | 4, [O("px", 1, 1, 0, V_PRESENT, doc)]
 
 
+def seed_f114b(n=30):
+    """LY_CTX_LEAFREF_LINKING switched off while linked data exist: lyht_free() walks the table its value callback removes records from
+    (whether a removal shrinks the table at a bad moment depends on the record count and the node addresses: several sizes)"""
+    doc = ('{"lfb:sys":{"name":"on","if":[{"name":"a","idx":1}],"ref":"a","lfc:rt":[' +
+           ",".join('{"dst":"d%d","pfx":%d,"via":"a"}' % (i, i % 33) for i in range(n)) + ']},"lfc:cfg":{"mode":"a"}}')
+    return 1, 0x400 | 4, [O("px", 1, 1, 0, V_PRESENT, doc), "culr"]
+
+
 def seed_f115():
     """lyd_parse_data() with a parent and full validation that fails: implicit top-level nodes made by the validation are lost"""
     return 0, FORCE_LSAN, [O("px", 2, 0, P_ONLY, 0, '<c xmlns="urn:lfa"><li><k>b</k><ic><x>on</x></ic></li></c>'), O("pinp", 2, "/lfa:c/li[k='b']/ic", 1, P_STRICT, 0, "{}")]
@@ -1716,6 +1736,21 @@ def seed_f115():
 def seed_f119():
     """lyd_parse_data() with a parent and validation: the first parsed child (empty container of another case) is auto-deleted"""
     return 2, 4, [O("np", 2, 0, "/lfd:r/ki[k='lfd:k2']", None), O("pinp", 2, "/lfd:r", 0, P_STRICT, V_PRESENT, '<m2 xmlns="urn:lfd"></m2>')]
+
+
+def seed_f440():
+    """lyd_parse_data() with a parent, validation, no output pointer and a document without nodes: lyd_validate(NULL)"""
+    return 0, 4, [O("px", 2, 0, P_ONLY, 0, '<c xmlns="urn:lfa"><li><k>b</k></li></c>'), O("pinp", 2, "/lfa:c/li[k='b']", 0, P_STRICT, V_PRESENT, "", 1)]
+
+
+def seed_f442():
+    """failed lyd_parse_data() of a JSON document under a parent: list and leaf-list instances stay in the parent"""
+    return 0, 4, [O("px", 2, 0, P_ONLY, 0, '<c xmlns="urn:lfa"><a>x</a></c>'), O("pinp", 2, "/lfa:c", 1, P_STRICT, V_PRESENT, '{"lfa:sl":[1,2],"lfa:li":[{"k":"q"}],"lfa:a":[]}')]
+
+
+def seed_f441():
+    """lyd_parse_data() with a parent whose validation fails: *tree keeps pointing to the freed first parsed child"""
+    return 2, 4, [O("px", 2, 0, P_ONLY, 0, '<r xmlns="urn:lfd"><m1>x</m1></r>'), O("pinp", 2, "/lfd:r", 0, P_STRICT, V_PRESENT, '<m2 xmlns="urn:lfd"><q>1</q></m2>')]
 
 
 def seed_f121():
@@ -1874,6 +1909,27 @@ def _has_validating_subparse(line):
     return _ops_with(line, ("pinp",), lambda n, r: int(r[3]) & P_ONLY != P_ONLY)
 
 
+def _has_notree_subparse(line):
+    """a validating lyd_parse_data() with a parent and without an output pointer"""
+    return _ops_with(line, ("pinp",), lambda n, r: int(r[3]) & P_ONLY != P_ONLY and len(r) > 6 and r[6] == "1")
+
+
+def _failed_subparse(line, rep):
+    """a subtree parse (lyd_parse_data with a parent) of the history failed, or succeeded with full validation (and handed out a
+    top-level implicit node)"""
+    rcs = re.search(r"rc=(\S+)", rep)
+    rcs = rcs.group(1).split(",") if rcs else []
+    for i, (name, args, raw) in enumerate(decode_ops(line)):
+        if name == "pinp" and i < len(rcs) and rcs[i] != "-1":
+            try:
+                po, vo = int(raw[3]), int(raw[4])
+            except (ValueError, IndexError):
+                continue
+            if rcs[i] != "0" or (po & P_ONLY != P_ONLY and not (vo & V_PRESENT)):
+                return True
+    return False
+
+
 def _has_lyb_parse_without_opaq(line):
     return _ops_with(line, ("rt",), lambda n, r: r[2] == "2" and not (int(r[4]) & P_OPAQ))
 
@@ -1903,6 +1959,7 @@ UB_SIGNATURES = [
     ("F156", "lyb_print_node_any", "null pointer passed as argument", lambda line: _ops_with(line, ("acs",), lambda n, r: r[3] == "~")),
     ("F157", "lyplg_type_validate_leafref", "member access within null pointer of type 'struct ly set'", lambda line: bool(_ctxopts(line) & 0x400)),
     ("F155", "get_node_pos", "member access within null pointer", lambda line: _ops_with(line, ("fx", "ex"), lambda n, r: True)),
+    ("F440", "lyd_validate", "load of null pointer", lambda line: _has_notree_subparse(line)),
 ]
 
 
@@ -1922,6 +1979,9 @@ def classify(component, what, case):
                 for fid, fn, frag, cond in UB_SIGNATURES:
                     if fr and fr[0] == fn and frag in msg and (cond is None or cond(line)):
                         return fid
+            if re.search(r"src/validation\.c:\d+:\d+: runtime error: load of null pointer of type 'struct lyd_node \*'", err) and _has_notree_subparse(line):
+                # F440 when the report was written but the process did not get as far as the summary line (killed by the alarm)
+                return "F440"
             return None
         kind, frames, freedby = m.group(1), m.group(2).split(","), (m.group(3) or "").split(",")
         if kind == "heap-use-after-free" and _has_f19_op(line) and "lyd_hash_table_val_equal" in frames and \
@@ -1978,8 +2038,15 @@ def classify(component, what, case):
     if law in ("drec", "dref", "mid", "warn", "leak") and _has_multierr_parse(line) and \
             (law != "leak" or leakat.startswith(("lyd_create_", "lyd_parser_", "lydxml_", "lydjson_", "lyd_new_implicit", "ly_set_", "-"))):
         return "F113"
-    if law == "leak" and leakat.startswith(("lyd_create_", "lyd_new_implicit")) and _has_full_validation_subparse(line):
+    if law in ("leak", "drec", "dref", "warn") and leakat.startswith(("lyd_create_", "lyd_new_implicit")) and _has_full_validation_subparse(line):
+        # the lost implicit nodes (and, when they are terminal nodes, the dictionary strings they hold)
         return "F115"
+    if law == "left" and _ops_with(line, ("pinp",), lambda n, r: r[2] == "1"):
+        # JSON: the instances of a list / leaf-list (array members) are not remembered as parsed
+        return "F442"
+    if law == "onn" and _failed_subparse(line, rep):
+        # *tree of a failed lyd_parse_data(parent) is the first child of the parent / the (freed) first parsed child
+        return "F441"
     if law in ("leak", "eint") and _ops_with(line, ("ac", "acs"), lambda n, r: len(r) > 4 and r[4] == "1") and \
             (law == "eint" or leakat.startswith(("ly_set_add<xml_print_ns", "-"))):
         return "F116"
@@ -2002,6 +2069,7 @@ LAWS = [("drec", "dictionary records differ from the baseline after all trees we
         ("warn", "dictionary warning at ly_ctx_destroy (string not freed)"),
         ("leak", "memory leak reported by LeakSanitizer"),
         ("onn", "a failing call left a non-NULL output"),
+        ("left", "a failing lyd_parse_data(parent) left parsed nodes in the parent"),
         ("integ", "node links broken after an operation (integrity walk)")]
 
 
@@ -2137,7 +2205,7 @@ def run_life(cx, workers=None):
             "merge/diff), validated subtree parses (F119, 2%), late-failing loads of a module whose submodule derives identities from a surviving module under a prefix of its own (4%); non-trivial = distinct history whose reply reports at least one successful and one failing library call")
 
     hist = []       # (set, ctxopts, ops, kinds, stream)
-    for s in (seed_f19(), seed_f19_key(), seed_f21(), seed_f111(), seed_f112(), seed_f113(), seed_f114(), seed_f115(), seed_f116(), seed_f119(), seed_f121(), seed_f123(), seed_f123b(), seed_f124(), seed_f125(), seed_f126(), seed_f127(), seed_f128(0), seed_f128(1)):
+    for s in (seed_f19(), seed_f19_key(), seed_f21(), seed_f111(), seed_f112(), seed_f113(), seed_f114(), seed_f114b(12), seed_f114b(26), seed_f114b(30), seed_f114b(40), seed_f115(), seed_f116(), seed_f119(), seed_f440(), seed_f441(), seed_f442(), seed_f121(), seed_f123(), seed_f123b(), seed_f124(), seed_f125(), seed_f126(), seed_f127(), seed_f128(0), seed_f128(1)):
         hist.append((s[0], s[1], s[2], ["seed"] * len(s[2]), "seed"))
     hist += exhaustive_small(gen)
     n = int(os.environ.get("VERIF_LIFE_N", "0")) or cx.n(2200, 30000)
